@@ -40,9 +40,9 @@ CHECKS = {
   "Every field of the UpdateData returned by Stump.Update (PrevNumLeaves, ToDestroy order, NewDel hashes/positions, NewAdd hashes/positions) is compared with the value the reference model derives independently, over the enumerated small scope and seeded histories.",
   ORACLE),
  "C12": ("exploration", "runtime monitoring: Go race detector over concurrent reader/writer workloads + porcupine linearizability check of histories recorded while the writer is suspended at hook sites",
-  "Built with -race and the verif hooks: readers of every query kind (short and long requests, incl. concurrent remembering verifiers on full forests) run against a writer executing Modify/Undo/Ingest/Prune/Verify(remember)/Read (succeeding and failing); race-detector reports are de-duplicated by entry-point pair; at each of ten pause sites (inside the writer's critical section, inside Write, inside a concurrent verifier) the recorded call/return history is checked with porcupine against per-block reference states so a query that saw a half-applied block is Illegal; deadlocks and panics are caught by join watchdogs.",
+  "Built with -race and the verif hooks: readers of every query kind (short and long requests, argument slices shared between readers, incl. concurrent remembering verifiers on full forests) run against a writer executing Modify/Undo/Ingest/Prune/Verify(remember)/Read (succeeding and failing); race-detector reports are de-duplicated by entry-point pair; at each of ten pause sites (inside the writer's critical section, inside Write, inside a concurrent verifier) the recorded call/return history is checked with porcupine against per-block reference states so a query that saw a half-applied block is Illegal; deadlocks and panics are caught by join watchdogs.",
   "Covers only the interleavings produced (forced pauses at hooked sites plus free-running schedules); the Go scheduler is not controllable and rr is unavailable."),
- "C13": ("fault_enumeration", "runtime monitoring with fault injection: every truncation offset, every writer failure offset and six reader chunkings per serialized state",
+ "C13": ("fault_enumeration", "runtime monitoring with fault injection: every truncation offset, every writer failure offset and eight reader kinds per serialized state",
   "For each sampled end state of Pollard, full and partial MapPollard (small, tens-of-KB and from-roots forests up to 2^63 leaves) the stream is restored through every reader chunking (also two records back to back from one byte-counting reader), from every strict prefix and written to sinks failing at every offset; restored instances are compared observationally with the original (and evolved further, incl. undoing a block older than the stream), byte counts and SerializeSize are checked, and silent acceptance of a damaged stream or a panic is a violation.",
   "The fault space is enumerated completely per state; the states themselves are sampled. In-process io.Reader/io.Writer faults (the library does no system calls)."),
  "C14": ("exploration", "runtime monitoring: canonical-proof oracle for AddProof/GetProofSubset/GetMissingPositions/VerifyPartialProof",
